@@ -2896,6 +2896,518 @@ Proof.
              (At_src_tail _ _ _ H4) (proj1 (PTys_follow m ptxt Hpar)) ltac:(lia) eq_refl).
   reflexivity.
 Qed.
+
+(* ================================================================ Rust legacy `$` escapes and `..` *)
+Definition ao (o : option (list Z)) (t : list Z) : option (list Z) := Some (match o with None => t | Some y => y ++ t end).
+(* state while a name is being appended: first_name = false *)
+Notation St p o lv := (NS p o lv false).
+
+Definition plain_txt (t : list Z) : Prop := Forall (fun c => c <> 46 /\ c <> 36) t.     (* no '.', no '$' *)
+
+Lemma index_of2_skip : forall t r, Forall (fun c => c <> 46) t -> index_of2 46 46 (t ++ 46 :: 46 :: r) = Some (Z.of_nat (List.length t)).
+Proof.
+  induction t as [| a t IH]; intros r H.
+  - reflexivity.
+  - inversion H; subst. cbn [app index_of2 List.length].
+    destruct (t ++ 46 :: 46 :: r) as [| b r'] eqn:E; [ destruct t; discriminate |].
+    rwf (a =? 46). cbn [andb]. rewrite <- E. rewrite (IH r H3). f_equal. lia.
+Qed.
+Lemma index_of2_far : forall t c r, Forall (fun x => x <> 46) t -> c <> 46 ->
+  match index_of2 46 46 (t ++ c :: r) with None => True | Some d => Z.of_nat (List.length t) < d end.
+Proof.
+  induction t as [| a t IH]; intros c r H Hc.
+  - cbn [app index_of2 List.length]. destruct r as [| b r']; [ exact I |].
+    rwf (c =? 46). cbn [andb]. destruct (index_of2 46 46 (b :: r')) as [k |] eqn:E; [| exact I ].
+    assert (0 <= k). { clear - E. revert k E. generalize (b :: r'). induction l as [| x l IHl]; intros k E; [ discriminate |].
+      cbn [index_of2] in E. destruct l as [| y l']; [ discriminate |]. destruct ((x =? 46) && (y =? 46)); [ inversion E; lia |].
+      destruct (index_of2 46 46 (y :: l')) as [k' |]; [| discriminate ]. inversion E. specialize (IHl k' eq_refl). lia. }
+    cbn. lia.
+  - inversion H; subst. cbn [app index_of2 List.length].
+    destruct (t ++ c :: r) as [| b r'] eqn:E; [ destruct t; discriminate |].
+    rwf (a =? 46). cbn [andb]. rewrite <- E. specialize (IH c r H3 Hc).
+    destruct (index_of2 46 46 (t ++ c :: r)) as [k |]; [| exact I ]. lia.
+Qed.
+Lemma index_of_first : forall t r, Forall (fun c => c <> 36) t -> index_of 36 (t ++ 36 :: r) = Some (Z.of_nat (List.length t)).
+Proof.
+  induction t as [| a t IH]; intros r H; [ reflexivity |].
+  inversion H; subst. cbn [app index_of List.length]. rwf (a =? 36). rewrite (IH r H3). f_equal. lia.
+Qed.
+Lemma index_of_ge : forall t r, Forall (fun c => c <> 36) t ->
+  match index_of 36 (t ++ r) with None => True | Some d => Z.of_nat (List.length t) <= d end.
+Proof.
+  induction t as [| a t IH]; intros r H.
+  - cbn [app List.length]. destruct (index_of 36 r) as [k |] eqn:E; [| exact I ].
+    clear - E. revert k E. induction r as [| x r IHr]; intros k E; [ discriminate |]. cbn [index_of] in E.
+    destruct (x =? 36); [ inversion E; cbn; lia |]. destruct (index_of 36 r) as [k' |]; [| discriminate ].
+    inversion E. specialize (IHr k' eq_refl). cbn in *. lia.
+  - inversion H; subst. cbn [app index_of List.length]. rwf (a =? 36). specialize (IH r H3).
+    destruct (index_of 36 (t ++ r)) as [k |]; [| exact I ]. lia.
+Qed.
+
+Lemma append_len_at : forall src p o lv t rest, At src (t ++ rest) ->
+  append_len s 0 src (Z.of_nat (List.length t)) (St p o lv) = R 0 (St p (ao o t) lv).
+Proof.
+  intros src p o lv t rest H. unfold append_len, valid_ptr. destruct H as [H0 [H1 H2]].
+  rewrite app_length in H2.
+  rwf (0 + src <? 0). rwt (0 + src <=? L). unfold NS. stsimpl. unfold slen. rewrite H1.
+  assert (Hf : firstn (Z.to_nat (Z.of_nat (List.length t))) (t ++ rest) = t).
+  { rewrite Nat2Z.id. rewrite firstn_app, Nat.sub_diag, firstn_all. cbn [firstn]. apply app_nil_r. }
+  rewrite Hf. set (n := Z.of_nat (List.length t)) in *. assert (0 <= n) by lia.
+  destruct o as [y |]; unfold ao.
+  - rwf (n + 1 <? 0). assert (E2 : (Z.of_nat (List.length y) + n <? 0) = false) by (apply Z.ltb_ge; lia). rewrite E2.
+    rwf (n >? L - 0 - src). rwf (n <? 0). reflexivity.
+  - rwf (n <? 0). rwf (n >? L - 0 - src). reflexivity.
+Qed.
+
+Lemma append_sep_at : forall p o lv, append_separator (str "::") (St p o lv) = R 0 (St p (ao o (str "::")) lv).
+Proof. intros p o lv. destruct o; reflexivity. Qed.
+Lemma append_lit_at : forall p o lv t, append t (St p o lv) = R 0 (St p (ao o t) lv).
+Proof. intros p o lv t. destruct o; reflexivity. Qed.
+
+Definition enc_pairs (ps : list (list Z)) : list Z := List.concat (map (fun t => t ++ [46; 46]) ps).
+Definition tr_pairs (o : option (list Z)) (ps : list (list Z)) : option (list Z) :=
+  fold_left (fun o t => ao (ao o t) (str "::")) ps o.
+
+Lemma dots_loop_at : forall ps K sep p o lv txt c rest,
+  Forall plain_txt ps -> plain_txt txt -> c <> 46 ->
+  At sep (enc_pairs ps ++ txt ++ c :: rest) -> (List.length ps < K)%nat ->
+  dots_loop s 0 K sep (sep + Z.of_nat (List.length (enc_pairs ps)) + Z.of_nat (List.length txt)) (St p o lv) =
+  R (sep + Z.of_nat (List.length (enc_pairs ps))) (St p (tr_pairs o ps) lv).
+Proof.
+  induction ps as [| t ps IH]; intros K sep p o lv txt c rest Hps Htxt Hc H HK.
+  - destruct K as [| K]; [ cbn in HK; lia |]. cbn [enc_pairs map List.concat app List.length tr_pairs fold_left] in *.
+    cbn [dots_loop]. chs. destruct H as [H0 [H1 H2]]. rewrite H1.
+    assert (Hnd : Forall (fun x => x <> 46) txt) by (eapply Forall_impl; [| exact Htxt ]; intros a [A _]; exact A).
+    pose proof (index_of2_far txt c rest Hnd Hc) as Hf.
+    replace (sep + Z.of_nat 0) with sep by lia.
+    destruct (index_of2 46 46 (txt ++ c :: rest)) as [d |]; [| reflexivity ].
+    rwt (sep + d >? sep + Z.of_nat (List.length txt)). reflexivity.
+  - destruct K as [| K]; [ cbn in HK; lia |]. inversion Hps as [| ? ? Ht Hps' ]; subst.
+    unfold enc_pairs in *. cbn [map List.concat] in *. rewrite <- !app_assoc in H. cbn [app] in H.
+    set (tailp := List.concat (map (fun t0 => t0 ++ [46; 46]) ps)) in *.
+    cbn [dots_loop]. chs. pose proof H as [H0 [H1 H2]]. rewrite H1.
+    assert (Hnd : Forall (fun x => x <> 46) t) by (eapply Forall_impl; [| exact Ht ]; intros a [A _]; exact A).
+    rewrite (index_of2_skip t (tailp ++ txt ++ c :: rest) Hnd).
+    repeat rewrite app_length. cbn [List.length].
+    match goal with |- context [if ?a >? ?b then _ else _] => rwf (a >? b) end. unfold bind.
+    replace (sep + Z.of_nat (List.length t) - sep) with (Z.of_nat (List.length t)) by lia.
+    rewrite (append_len_at sep p o lv t (46 :: 46 :: tailp ++ txt ++ c :: rest) H).
+    rewrite append_sep_at.
+    assert (H' : At (sep + Z.of_nat (List.length t) + 2) (tailp ++ txt ++ c :: rest)).
+    { replace (sep + Z.of_nat (List.length t) + 2) with (sep + Z.of_nat (List.length (t ++ [46; 46]))) by (rewrite app_length; cbn [List.length]; lia).
+      apply At_app. rewrite <- app_assoc. exact H. }
+    cbn [List.length] in HK.
+    replace (sep + Z.of_nat (List.length t) + 2) with (sep + Z.of_nat (List.length t) + 2) by lia.
+    pose proof (IH K (sep + Z.of_nat (List.length t) + 2) p (ao (ao o t) (str "::")) lv txt c rest Hps' Htxt Hc H' ltac:(lia)) as E.
+    fold tailp in E.
+    replace (sep + Z.of_nat (List.length t + 2 + List.length tailp) + Z.of_nat (List.length txt))
+      with (sep + Z.of_nat (List.length t) + 2 + Z.of_nat (List.length tailp) + Z.of_nat (List.length txt)) by lia.
+    rewrite E. cbn [tr_pairs fold_left]. f_equal. lia.
+Qed.
+
+(* one escape:  <text with ..>* $code$  *)
+Record rgroup := mkrg { rg_ps : list (list Z); rg_txt : list Z; rg_code : list Z; rg_punct : list Z }.
+Definition rblock (g : rgroup) : list Z := enc_pairs (rg_ps g) ++ rg_txt g.
+Definition enc_group (g : rgroup) : list Z := rblock g ++ 36 :: rg_code g ++ [36].
+Definition tr_group (o : option (list Z)) (g : rgroup) : option (list Z) :=
+  ao (ao (tr_pairs o (rg_ps g)) (rg_txt g)) (rg_punct g).
+Definition rgroup_ok (g : rgroup) : Prop :=
+  Forall plain_txt (rg_ps g) /\ plain_txt (rg_txt g) /\ In (rg_code g, rg_punct g) rust_mappings.
+
+Lemma mapping_found : forall code punct after, In (code, punct) rust_mappings ->
+  find_mapping rust_mappings (code ++ 36 :: after) = Some (code, punct).
+Proof.
+  intros code punct after H. unfold rust_mappings in H. cbn [In] in H.
+  repeat (destruct H as [H | H]; [ inversion H; subst; reflexivity |]). contradiction.
+Qed.
+Lemma mapping_len : forall code punct, In (code, punct) rust_mappings -> (1 <= List.length code <= 3)%nat /\ Forall (fun c => c <> 36) code.
+Proof.
+  intros code punct H. unfold rust_mappings in H. cbn [In] in H.
+  repeat (destruct H as [H | H]; [ inversion H; subst; split; [ cbn; lia | repeat constructor; discriminate ] |]). contradiction.
+Qed.
+
+Lemma rblock_nodollar : forall g, rgroup_ok g -> Forall (fun c => c <> 36) (rblock g).
+Proof.
+  intros g [Hps [Htxt _]]. unfold rblock. apply Forall_app. split.
+  - unfold enc_pairs. induction (rg_ps g) as [| t ps IH]; [ constructor |]. inversion Hps; subst.
+    cbn [map List.concat]. apply Forall_app. split; [| apply IH; assumption ].
+    apply Forall_app. split; [ eapply Forall_impl; [| eassumption ]; intros a [_ A]; exact A | repeat constructor; discriminate ].
+  - eapply Forall_impl; [| exact Htxt ]. intros a [_ A]. exact A.
+Qed.
+Lemma enc_pairs_len : forall ps, (List.length ps <= List.length (enc_pairs ps))%nat.
+Proof.
+  induction ps as [| t ps IH]; [ cbn; lia |]. unfold enc_pairs in *. cbn [map List.concat List.length].
+  repeat rewrite app_length. cbn [List.length]. lia.
+Qed.
+
+(* one iteration of the `$` loop *)
+Lemma dollar_step : forall k g p o lv after e,
+  rgroup_ok g -> At p (enc_group g ++ after) ->
+  p + Z.of_nat (List.length (enc_group g)) <= e -> e <= L ->
+  prefix_of (str "$u20$as$u20$") (36 :: rg_code g ++ 36 :: after) = false ->
+  dollar_loop true s 0 (S k) p (p + Z.of_nat (List.length (rblock g))) e (St p o lv) =
+  (let p' := p + Z.of_nat (List.length (enc_group g)) in
+   match strchr_from s 0 p' (ch "$") with
+   | Some d' => dollar_loop true s 0 k p' d' e
+   | None => ret p'
+   end) (St (p + Z.of_nat (List.length (enc_group g))) (tr_group o g) lv).
+Proof.
+  intros k g p o lv after e [Hps [Htxt Hin]] H He HeL Has.
+  destruct (mapping_len _ _ Hin) as [Hcl Hcnd].
+  set (dollar := p + Z.of_nat (List.length (rblock g))).
+  assert (Hlen : Z.of_nat (List.length (enc_group g)) = Z.of_nat (List.length (rblock g)) + Z.of_nat (List.length (rg_code g)) + 2).
+  { unfold enc_group. repeat rewrite app_length. cbn [List.length]. rewrite app_length. cbn [List.length]. lia. }
+  assert (Hrb : Z.of_nat (List.length (rblock g)) = Z.of_nat (List.length (enc_pairs (rg_ps g))) + Z.of_nat (List.length (rg_txt g)))
+    by (unfold rblock; rewrite app_length; lia).
+  cbn [dollar_loop]. rwf (negb (dollar <? e)).
+  unfold enc_group, rblock in H. rewrite <- !app_assoc in H. cbn [app] in H. rewrite <- !app_assoc in H.
+  unfold bind at 1.
+  assert (Hsl : (List.length (rg_ps g) < S (Z.to_nat (slen s 0)))%nat).
+  { pose proof (enc_pairs_len (rg_ps g)) as Hel. destruct H as [Ha [_ Hb]]. rewrite app_length in Hb. unfold slen, flen in *. lia. }
+  pose proof (dots_loop_at (rg_ps g) (S (Z.to_nat (slen s 0))) p p o lv (rg_txt g) 36 (rg_code g ++ [36] ++ after) Hps Htxt ltac:(discriminate) H Hsl) as Ed.
+  unfold dollar, rblock. rewrite app_length.
+  replace (p + Z.of_nat (List.length (enc_pairs (rg_ps g)) + List.length (rg_txt g)))
+    with (p + Z.of_nat (List.length (enc_pairs (rg_ps g))) + Z.of_nat (List.length (rg_txt g))) by lia.
+  rewrite Ed. unfold bind at 1.
+  replace (p + Z.of_nat (List.length (enc_pairs (rg_ps g))) + Z.of_nat (List.length (rg_txt g)) - (p + Z.of_nat (List.length (enc_pairs (rg_ps g)))))
+    with (Z.of_nat (List.length (rg_txt g))) by lia.
+  pose proof (At_app _ _ _ H) as H1.
+  rewrite (append_len_at _ p _ lv (rg_txt g) (36 :: rg_code g ++ [36] ++ after) H1).
+  pose proof (At_app _ _ _ H1) as H2.
+  set (dl := p + Z.of_nat (List.length (enc_pairs (rg_ps g))) + Z.of_nat (List.length (rg_txt g))) in *.
+  pose proof (At_cons _ _ _ H2) as H3.
+  destruct H3 as [H30 [H31 H32]]. rewrite H31.
+  change (rg_code g ++ [36] ++ after) with (rg_code g ++ 36 :: after).
+  rewrite (mapping_found _ _ after Hin). cbn [andb].
+  rwf (dl + Z.of_nat (List.length (rg_code g)) + 2 >? e).
+  destruct H2 as [H20 [H21 H22]]. rewrite H21.
+  change (36 :: rg_code g ++ [36] ++ after) with (36 :: rg_code g ++ 36 :: after). rewrite Has.
+  unfold bind at 1. rewrite append_lit_at.
+  unfold bind at 1.
+  assert (Hcn : consume_n s 0 (dl - p + Z.of_nat (List.length (rg_code g)) + 2) (St p (tr_group o g) lv)
+                = R (hd0 (enc_pairs (rg_ps g) ++ rg_txt g ++ 36 :: rg_code g ++ [36] ++ after))
+                    (St (p + Z.of_nat (List.length (enc_group g))) (tr_group o g) lv)).
+  { rewrite (consume_n_at _ _ (enc_pairs (rg_ps g) ++ rg_txt g ++ 36 :: rg_code g ++ [36] ++ after)); [| exact H | reflexivity |].
+    - unfold NS. stsimpl. f_equal. f_equal. unfold dl. lia.
+    - clear Ed. repeat rewrite app_length. cbn [List.length]. repeat rewrite app_length. cbn [List.length]. unfold dl. lia. }
+  change (ao (ao (tr_pairs o (rg_ps g)) (rg_txt g)) (rg_punct g)) with (tr_group o g).
+  rewrite Hcn. unfold bind at 1. unfold valid_ptr.
+  replace (p + (dl - p + Z.of_nat (List.length (rg_code g)) + 2)) with (p + Z.of_nat (List.length (enc_group g))) by (unfold dl; lia).
+  rwf (0 + (p + Z.of_nat (List.length (enc_group g))) <? 0). rwt (0 + (p + Z.of_nat (List.length (enc_group g))) <=? L).
+  cbv zeta. reflexivity.
+Qed.
+
+Definition enc_groups (gs : list rgroup) : list Z := List.concat (map enc_group gs).
+Definition tr_groups (o : option (list Z)) (gs : list rgroup) : option (list Z) := fold_left tr_group gs o.
+(* `$u20$as$u20$` is the one escape sequence with a meaning of its own: not inside the translated part *)
+Fixpoint noas (gs : list rgroup) (after : list Z) : Prop :=
+  match gs with
+  | [] => True
+  | g :: r => prefix_of (str "$u20$as$u20$") (36 :: rg_code g ++ 36 :: enc_groups r ++ after) = false /\ noas r after
+  end.
+
+Lemma enc_groups_len : forall gs, (List.length gs <= List.length (enc_groups gs))%nat.
+Proof.
+  induction gs as [| g gs IH]; [ cbn; lia |]. unfold enc_groups in *. cbn [map List.concat List.length].
+  set (X := List.concat (map enc_group gs)) in *. clearbody X.
+  rewrite app_length. unfold enc_group. repeat rewrite app_length. cbn [List.length]. lia.
+Qed.
+
+Lemma dollar_groups : forall gs k p o lv tl beyond,
+  Forall rgroup_ok gs -> Forall (fun c => c <> 36) tl ->
+  At p (enc_groups gs ++ tl ++ beyond) -> noas gs (tl ++ beyond) -> (List.length gs < k)%nat ->
+  match gs with
+  | [] => True
+  | g :: _ =>
+      let e := p + Z.of_nat (List.length (enc_groups gs)) + Z.of_nat (List.length tl) in
+      dollar_loop true s 0 k p (p + Z.of_nat (List.length (rblock g))) e (St p o lv) =
+      R (p + Z.of_nat (List.length (enc_groups gs)))
+        (St (p + Z.of_nat (List.length (enc_groups gs))) (tr_groups o gs) lv)
+  end.
+Proof.
+  induction gs as [| g gs IH]; intros k p o lv tl beyond Hok Htl H Hna Hk; [ exact I |].
+  inversion Hok as [| ? ? Hg Hgs ]; subst. destruct Hna as [Hna1 Hna2].
+  destruct k as [| k]; [ lia |]. cbn [List.length] in Hk. cbv zeta.
+  unfold enc_groups in *. cbn [map List.concat] in *. fold (enc_groups gs) in *.
+  rewrite <- app_assoc in H.
+  set (e := p + Z.of_nat (List.length (enc_group g ++ enc_groups gs)) + Z.of_nat (List.length tl)).
+  assert (HeL : e <= L).
+  { destruct H as [_ [_ HH]]. unfold e. repeat rewrite app_length in *. lia. }
+  rewrite (dollar_step k g p o lv (enc_groups gs ++ tl ++ beyond) e Hg H); [| unfold e; rewrite app_length; lia | exact HeL | exact Hna1 ].
+  cbv zeta. set (p' := p + Z.of_nat (List.length (enc_group g))).
+  pose proof (At_app _ _ _ H) as H'. fold p' in H'.
+  unfold strchr_from. chs. destruct H' as [H'0 [H'1 H'2]]. rewrite H'1.
+  destruct gs as [| g2 gs2].
+  - cbn [enc_groups map List.concat app List.length] in *. cbn [tr_groups fold_left].
+    pose proof (index_of_ge tl beyond Htl) as Hi.
+    replace (p + Z.of_nat (List.length (enc_group g ++ []))) with p' by (rewrite app_nil_r; reflexivity).
+    destruct (index_of 36 (tl ++ beyond)) as [d |]; [| reflexivity ].
+    destruct k as [| k']; [ lia |]. cbn [dollar_loop].
+    assert (Ege : negb (p' + d <? e) = true).
+    { unfold e. rewrite app_nil_r. fold p'. apply negb_true_iff. apply Z.ltb_ge. lia. }
+    rewrite Ege. reflexivity.
+  - inversion Hgs as [| ? ? Hg2 _ ]; subst.
+    unfold enc_groups at 1. cbn [map List.concat]. fold (enc_groups gs2).
+    unfold enc_group at 1. rewrite <- !app_assoc. cbn [app].
+    rewrite (index_of_first (rblock g2) _ (rblock_nodollar g2 Hg2)).
+    assert (H2 : At p' (enc_groups (g2 :: gs2) ++ tl ++ beyond)) by (split; [ exact H'0 | split; [ exact H'1 | exact H'2 ] ]).
+    pose proof (IH k p' (tr_group o g) lv tl beyond Hgs Htl H2 Hna2 ltac:(cbn [List.length] in *; lia)) as E.
+    cbv zeta in E.
+    replace e with (p' + Z.of_nat (List.length (enc_groups (g2 :: gs2))) + Z.of_nat (List.length tl))
+      by (unfold e, p'; rewrite app_length; lia).
+    rewrite E. cbn [tr_groups fold_left]. f_equal.
+    + unfold p'. rewrite app_length. lia.
+    + unfold NS. f_equal. unfold p'. rewrite app_length. lia.
+Qed.
+
+(* a component with escapes:  <number> ( <text/..>* $code$ )+ <tail>  *)
+Definition rd_text (gs : list rgroup) (tl : list Z) : list Z := enc_groups gs ++ tl.
+Definition rd_ok (gs : list rgroup) (tl rest : list Z) : Prop :=
+  gs <> [] /\ Forall rgroup_ok gs /\ Forall (fun c => c <> 36) tl /\ starts_nondigit (rd_text gs tl) /\
+  0 < Z.of_nat (List.length (rd_text gs tl)) < 1000000000 /\
+  ((Z.of_nat (List.length (rd_text gs tl)) =? 17) && hash17 (rd_text gs tl)) = false /\
+  noas gs (tl ++ rest).
+Definition rd_src (gs : list rgroup) (tl : list Z) : list Z := dec (Z.of_nat (List.length (rd_text gs tl))) ++ rd_text gs tl.
+
+Lemma append_separator_at : forall p o lv fnm,
+  append_separator (str "::") (NS p o lv fnm) = R 0 (St p (sep_out o fnm) lv).
+Proof. intros p o lv fnm. destruct fnm, o; reflexivity. Qed.
+
+Lemma source_name_dollar_at : forall p o lv fnm gs tl rest,
+  At p (rd_src gs tl ++ rest) -> rd_ok gs tl rest ->
+  dd_source_name true s 0 (NS p o lv fnm) =
+  R 0 (St (p + Z.of_nat (List.length (rd_src gs tl))) (ao (tr_groups (sep_out o fnm) gs) tl) lv).
+Proof.
+  intros p o lv fnm gs tl rest H [Hne [Hok [Htl [Hsn [Hn [Hh Hna]]]]]].
+  assert (Hsn2 : starts_nondigit (rd_text gs tl ++ rest)).
+  { clear - Hsn Hn. destruct (rd_text gs tl) as [| x c']; [ cbn [List.length] in Hn; lia | exact Hsn ]. }
+  set (c := rd_text gs tl) in *. set (n := Z.of_nat (List.length c)) in *.
+  assert (Hndef : n = Z.of_nat (List.length c)) by reflexivity.
+  unfold rd_src in *. fold c in H. fold n in H. fold c. fold n. rewrite <- app_assoc in H.
+  unfold dd_source_name. unfold NS at 1.
+  erewrite bind_R; [| apply (number_at _ n (c ++ rest)); [ exact H | reflexivity | exact Hn | exact Hsn2 ] ].
+  rwf (n <? 0).
+  apply At_app in H. set (p0 := p + Z.of_nat (List.length (dec n))) in *.
+  stsimpl. fold p0.
+  assert (Hfin : p + Z.of_nat (List.length (dec n ++ c)) = p0 + n) by (rewrite app_length; unfold p0; lia).
+  rewrite Hfin. clearbody p0.
+  assert (Hp0n : p0 + n <= L) by (destruct H as [H0 [H1 H2]]; rewrite app_length in H2; lia).
+  pose proof (At_le _ _ H) as Hp0r.
+  rewrite bind_eof. stsimpl. rwf (p0 >=? L).
+  rewrite bind_gets, bind_gets. stsimpl. cbn [Z.eqb negb andb]. rwf (n >? L - p0).
+  rewrite bind_gets, bind_getb, bind_gets. stsimpl. cbn [Z.eqb negb andb orb].
+  assert (Hh2 : ((n =? 17) && hash17 (suffix s 0 p0)) = false).
+  { destruct H as [H0 [H1 H2]]. rewrite H1. destruct (n =? 17) eqn:E17; [| reflexivity ]. cbn [andb] in *.
+    rewrite hash17_app by lia. exact Hh. }
+  rewrite Hh2.
+  change (mkst p0 L o 0 lv 0 false fnm false false) with (NS p0 o lv fnm).
+  unfold bind at 1. rewrite append_separator_at.
+  (* the first '$' *)
+  destruct gs as [| g gs']; [ contradiction |].
+  inversion Hok as [| ? ? Hg Hgs ]; subst.
+  assert (Hc : c = rblock g ++ 36 :: rg_code g ++ 36 :: enc_groups gs' ++ tl).
+  { unfold c, rd_text. change (enc_groups (g :: gs')) with (enc_group g ++ enc_groups gs'). unfold enc_group at 1.
+    repeat (rewrite <- app_assoc; cbn [app]). reflexivity. }
+  assert (Hsc : strchr_from s 0 p0 (ch "$") = Some (p0 + Z.of_nat (List.length (rblock g)))).
+  { unfold strchr_from. chs. destruct H as [H0 [H1 H2]]. rewrite H1, Hc. rewrite <- app_assoc. cbn [app].
+    rewrite (index_of_first (rblock g) _ (rblock_nodollar g Hg)). reflexivity. }
+  rewrite Hsc.
+  assert (Hbl : Z.of_nat (List.length (rblock g)) < n).
+  { rewrite Hndef, Hc. repeat rewrite app_length. cbn [List.length]. lia. }
+  rwf (p0 + Z.of_nat (List.length (rblock g)) >? p0 + n).
+  assert (Hgl : (List.length (g :: gs') < S (Z.to_nat (slen s 0)))%nat).
+  { pose proof (enc_groups_len (g :: gs')) as Hel. destruct H as [Ha [_ Hb]]. unfold c, rd_text in Hb. repeat rewrite app_length in Hb.
+    unfold slen, flen in *. lia. }
+  assert (Hat : At p0 (enc_groups (g :: gs') ++ tl ++ rest)) by (unfold c, rd_text in H; rewrite <- app_assoc in H; exact H).
+  pose proof (dollar_groups (g :: gs') (S (Z.to_nat (slen s 0))) p0 (sep_out o fnm) lv tl rest Hok Htl Hat Hna Hgl) as E.
+  cbv zeta in E.
+  assert (Hn2 : n = Z.of_nat (List.length (enc_groups (g :: gs'))) + Z.of_nat (List.length tl)).
+  { rewrite Hndef. unfold c, rd_text. rewrite app_length. lia. }
+  replace (p0 + n) with (p0 + Z.of_nat (List.length (enc_groups (g :: gs'))) + Z.of_nat (List.length tl)) by lia.
+  unfold bind at 1. rewrite E.
+  set (pf := p0 + Z.of_nat (List.length (enc_groups (g :: gs')))) in *.
+  replace (pf + Z.of_nat (List.length tl) - pf) with (Z.of_nat (List.length tl)) by lia.
+  assert (Hpf : At pf (tl ++ rest)) by (unfold pf; apply At_app; exact Hat).
+  unfold bind at 1. rewrite (append_len_at pf pf _ lv tl rest Hpf).
+  unfold bind at 1.
+  rewrite (consume_n_at _ (Z.of_nat (List.length tl)) (tl ++ rest)); [| exact Hpf | reflexivity | rewrite app_length; lia ].
+  reflexivity.
+Qed.
+
+(* ---- a plain component inside a name that has `$` elsewhere *)
+Lemma source_name_plain2 : forall p o lv fnm id rest,
+  At p (src id ++ rest) -> ident_okb id = true ->
+  dd_source_name true s 0 (NS p o lv fnm) =
+  R 0 (St (p + Z.of_nat (List.length (src id))) (add_out (sep_out o fnm) id) lv).
+Proof.
+  intros p o lv fnm id rest H Hid.
+  set (n := Z.of_nat (List.length id)).
+  assert (Hndef : n = Z.of_nat (List.length id)) by reflexivity.
+  pose proof (ident_len id Hid) as Hn. fold n in Hn.
+  unfold src in *. fold n in H. fold n. rewrite <- app_assoc in H.
+  unfold dd_source_name. unfold NS at 1.
+  erewrite bind_R; [| apply (number_at _ n (id ++ rest)); [ exact H | reflexivity | exact Hn
+                                                          | apply ident_starts_nondigit; exact Hid ] ].
+  rwf (n <? 0).
+  apply At_app in H. set (p0 := p + Z.of_nat (List.length (dec n))) in *.
+  stsimpl. fold p0.
+  assert (Hfin : p + Z.of_nat (List.length (dec n ++ id)) = p0 + n) by (rewrite app_length; unfold p0; lia).
+  rewrite Hfin. clearbody p0.
+  assert (Hp0n : p0 + n <= L) by (destruct H as [H0 [H1 H2]]; rewrite app_length in H2; lia).
+  pose proof (At_le _ _ H) as Hp0r.
+  rewrite bind_eof. stsimpl. rwf (p0 >=? L).
+  rewrite bind_gets, bind_gets. stsimpl. cbn [Z.eqb negb andb]. rwf (n >? L - p0).
+  rewrite bind_gets, bind_getb, bind_gets. stsimpl. cbn [Z.eqb negb andb orb].
+  assert (Hh : ((n =? 17) && hash17 (suffix s 0 p0)) = false).
+  { destruct H as [H0 [H1 H2]]. rewrite H1. pose proof (ident_nohash id Hid) as Hnh. rewrite <- Hndef in Hnh.
+    destruct (n =? 17) eqn:E17; [| reflexivity ]. cbn [andb] in *. rewrite hash17_app by lia. exact Hnh. }
+  rewrite Hh.
+  change (mkst p0 L o 0 lv 0 false fnm false false) with (NS p0 o lv fnm).
+  unfold bind at 1. rewrite append_separator_at.
+  assert (Hsimple : (append_len s 0 p0 n;;; consume_n s 0 n;;; ret 0) (St p0 (sep_out o fnm) lv) =
+                    R 0 (St (p0 + n) (add_out (sep_out o fnm) id) lv)).
+  { unfold bind. rewrite Hndef. rewrite (append_len_at p0 p0 _ lv id rest H).
+    rewrite (consume_n_at _ (Z.of_nat (List.length id)) (id ++ rest)); [| exact H | reflexivity | rewrite app_length; lia ].
+    unfold ao, add_out. reflexivity. }
+  assert (Hidnd : Forall (fun c => c <> 36) id) by (apply no_dollar_ident; exact Hid).
+  unfold strchr_from. chs. pose proof H as [H0 [H1 H2]]. rewrite H1.
+  pose proof (index_of_ge id rest Hidnd) as Hi.
+  destruct (index_of 36 (id ++ rest)) as [d |]; [| exact Hsimple ].
+  destruct (p0 + d >? p0 + n) eqn:Eg; [ exact Hsimple |].
+  (* the '$' is the first byte behind the name: the loop does nothing *)
+  cbn [dollar_loop]. assert (Ege : negb (p0 + d <? p0 + n) = true) by (apply negb_true_iff; apply Z.ltb_ge; lia).
+  rewrite Ege. rewrite bind_ret. replace (p0 + n - p0) with n by lia. exact Hsimple.
+Qed.
+
+(* dd_unqualified_name around any <number>... component *)
+Lemma unq_of_src : forall k p o lv fnm cenc rest p' o',
+  At p (cenc ++ rest) -> 48 <= hd0 (cenc ++ rest) <= 57 ->
+  dd_source_name true s 0 (NS p o lv fnm) = R 0 (St p' o' lv) -> At p' rest -> hd0 rest <> 66 ->
+  run true s 0 (S k) FUnqualifiedName (NS p o lv fnm) = R 0 (St p' o' lv).
+Proof.
+  intros k p o lv fnm cenc rest p' o' H Hd Hsrc H' HB.
+  cbn [run body]. unfold dd_unqualified_name. unfold NS at 1.
+  destruct (cenc ++ rest) as [| d tl] eqn:E; [ cbn in Hd; lia |]. cbn [hd0] in Hd.
+  erewrite bind_R; [| apply (curr_at _ (d :: tl)); [ exact H | reflexivity ] ].
+  erewrite bind_R; [| apply (peek1_at _ d tl); [ exact H | reflexivity ] ].
+  rewrite bind_eof. stsimpl. pose proof (At_lt _ _ _ H) as Hlt. rwf (p >=? L). cbn [hd0]. chs. cbn [Z.eqb].
+  rwf (d =? 67). rwf (d =? 68). rwf (d =? 85). cbn [orb].
+  unfold islower. rwf (97 <=? d). cbn [andb]. rwf (d =? 76).
+  rewrite bind_ret. fold (NS p o lv fnm).
+  erewrite bind_R; [| exact Hsrc ].
+  unfold NS at 1.
+  erewrite bind_R; [| apply (curr_at _ rest); [ exact H' | reflexivity ] ].
+  rwf (hd0 rest =? 66). reflexivity.
+Qed.
+
+(* rest-independent form of the `as` condition *)
+Fixpoint noas_c (gs : list rgroup) (tl : list Z) : Prop :=
+  match gs with
+  | [] => True
+  | g :: r => (rg_code g = str "u20" -> prefix_of [97; 115] (enc_groups r ++ tl) = false) /\ noas_c r tl
+  end.
+Definition rest_ok (rest : list Z) : Prop := 48 <= hd0 rest <= 57 \/ hd0 rest = 69.
+
+Lemma as_prefix_inv : forall code punct X, In (code, punct) rust_mappings ->
+  prefix_of (str "$u20$as$u20$") (36 :: code ++ 36 :: X) = true -> code = str "u20" /\ prefix_of [97; 115] X = true.
+Proof.
+  intros code punct X H Hp. unfold rust_mappings in H. cbn [In] in H.
+  repeat (destruct H as [H | H]; [ inversion H; subst; cbn in Hp; try discriminate |]); try contradiction.
+  split; [ reflexivity |]. destruct X as [| a [| b X]]; cbn in Hp |- *; try discriminate.
+  - rewrite andb_false_r in Hp. discriminate.
+  - apply andb_prop in Hp. destruct Hp as [Ha Hp]. apply andb_prop in Hp. destruct Hp as [Hb _]. rewrite Ha, Hb. reflexivity.
+Qed.
+Lemma prefix_as_app : forall Y rest, prefix_of [97; 115] Y = false -> rest_ok rest -> prefix_of [97; 115] (Y ++ rest) = false.
+Proof.
+  intros Y rest H Hr. unfold rest_ok in Hr. destruct Y as [| a Y].
+  - cbn [app]. destruct rest as [| r0 rest']; [ reflexivity |]. cbn [prefix_of hd0] in *. destruct Hr as [Hr | Hr]; rwf (97 =? r0); reflexivity.
+  - destruct Y as [| b Y]; [| exact H ].
+    cbn [app prefix_of] in *. destruct (97 =? a); [| reflexivity ]. cbn [andb].
+    destruct rest as [| r0 rest']; [ reflexivity |]. cbn [hd0] in Hr. destruct Hr as [Hr | Hr]; rwf (115 =? r0); reflexivity.
+Qed.
+Lemma noas_lift : forall gs tl rest, Forall rgroup_ok gs -> noas_c gs tl -> rest_ok rest -> noas gs (tl ++ rest).
+Proof.
+  induction gs as [| g gs IH]; intros tl rest Hok Hn Hr; [ exact I |].
+  inversion Hok as [| ? ? [_ [_ Hin]] Hgs ]; subst. destruct Hn as [Hn1 Hn2]. split; [| apply IH; assumption ].
+  destruct (prefix_of (str "$u20$as$u20$") (36 :: rg_code g ++ 36 :: enc_groups gs ++ tl ++ rest)) eqn:E; [| reflexivity ].
+  exfalso. destruct (as_prefix_inv _ _ _ Hin E) as [Ec Ep]. specialize (Hn1 Ec).
+  rewrite app_assoc in Ep. rewrite (prefix_as_app _ rest Hn1 Hr) in Ep. discriminate.
+Qed.
+
+(* ---- components of a Rust path *)
+Inductive rcomp := RPlain (id : list Z) | RDollar (gs : list rgroup) (tl : list Z).
+Definition rc_enc (c : rcomp) : list Z := match c with RPlain id => src id | RDollar gs tl => rd_src gs tl end.
+Definition rc_out (c : rcomp) (o : option (list Z)) (fnm : bool) : option (list Z) :=
+  match c with RPlain id => add_out (sep_out o fnm) id | RDollar gs tl => ao (tr_groups (sep_out o fnm) gs) tl end.
+Definition rc_ok (c : rcomp) : Prop :=
+  match c with
+  | RPlain id => ident_okb id = true
+  | RDollar gs tl =>
+      gs <> [] /\ Forall rgroup_ok gs /\ Forall (fun x => x <> 36) tl /\ starts_nondigit (rd_text gs tl) /\
+      0 < Z.of_nat (List.length (rd_text gs tl)) < 1000000000 /\
+      ((Z.of_nat (List.length (rd_text gs tl)) =? 17) && hash17 (rd_text gs tl)) = false /\ noas_c gs tl
+  end.
+
+Lemma rc_enc_hd : forall c rest, rc_ok c -> 48 <= hd0 (rc_enc c ++ rest) <= 57.
+Proof.
+  intros c rest H. destruct c as [id | gs tl]; cbn [rc_enc rc_ok] in *.
+  - apply src_hd_digit. exact H.
+  - destruct H as [_ [_ [_ [_ [Hn _]]]]]. unfold rd_src. rewrite <- app_assoc.
+    destruct (hd0_dec_digit _ (rd_text gs tl ++ rest) Hn) as [Hd _]. apply isdigit_range. exact Hd.
+Qed.
+
+Lemma unq_rcomp : forall c k p o lv fnm rest, rc_ok c -> At p (rc_enc c ++ rest) -> rest_ok rest ->
+  run true s 0 (S k) FUnqualifiedName (NS p o lv fnm) =
+  R 0 (St (p + Z.of_nat (List.length (rc_enc c))) (rc_out c o fnm) lv).
+Proof.
+  intros c k p o lv fnm rest Hok H Hr.
+  assert (HB : hd0 rest <> 66) by (destruct Hr; lia).
+  apply (unq_of_src k p o lv fnm (rc_enc c) rest); [ exact H | apply rc_enc_hd; exact Hok | | apply At_app; exact H | exact HB ].
+  destruct c as [id | gs tl]; cbn [rc_enc rc_out rc_ok] in *.
+  - apply (source_name_plain2 p o lv fnm id rest H Hok).
+  - destruct Hok as [A [B [C [D [E [F G]]]]]].
+    apply (source_name_dollar_at p o lv fnm gs tl rest H).
+    repeat split; try assumption; try lia. apply noas_lift; assumption.
+Qed.
+
+Definition rcs_enc (cs : list rcomp) : list Z := List.concat (map rc_enc cs).
+Fixpoint rcs_out (o : option (list Z)) (fnm : bool) (cs : list rcomp) : option (list Z) :=
+  match cs with [] => o | c :: r => rcs_out (rc_out c o fnm) false r end.
+
+Lemma nested_rcomps : forall cs k p o lv fnm rest,
+  At p (rcs_enc cs ++ rest) -> Forall rc_ok cs -> rest_ok rest ->
+  run true s 0 (List.length cs + S k) (LNested 0) (NS p o lv fnm) =
+  run true s 0 (S k) (LNested 0)
+    (NS (p + Z.of_nat (List.length (rcs_enc cs))) (rcs_out o fnm cs) lv (match cs with [] => fnm | _ => false end)).
+Proof.
+  induction cs as [| c cs IH]; intros k p o lv fnm rest H Hok Hr.
+  - cbn [List.length rcs_enc map List.concat app rcs_out Nat.add]. replace (p + Z.of_nat 0) with p by lia. reflexivity.
+  - inversion Hok as [| ? ? Hc Hcs]; subst.
+    unfold rcs_enc in *. cbn [map List.concat] in *. rewrite <- app_assoc in H.
+    cbn [List.length Nat.add]. cbn [run body]. unfold nested_loop.
+    pose proof (rc_enc_hd c (List.concat (map rc_enc cs) ++ rest) Hc) as Hd.
+    destruct (rc_enc c ++ List.concat (map rc_enc cs) ++ rest) as [| d tl] eqn:E; [ cbn in Hd; lia |].
+    cbn [hd0] in Hd. unfold NS at 1.
+    erewrite bind_R; [| apply (curr_at _ (d :: tl)); [ exact H | reflexivity ] ].
+    rewrite bind_eof. stsimpl. pose proof (At_lt _ _ _ H) as Hlt. rwf (p >=? L). cbn [hd0]. chs. cbn [Z.eqb].
+    rwf (d =? 69). cbn [orb negb].
+    erewrite bind_R; [| apply (peek1_at _ d tl); [ exact H | reflexivity ] ].
+    rwf (d =? 68). rwf (d =? 67). cbn [andb orb]. rwf (d =? 85). cbn [orb].
+    unfold islower, isdigit. rwf (97 <=? d). rwt (48 <=? d). rwt (d <=? 57). cbn [andb orb].
+    rewrite <- E in H.
+    assert (Hr2 : rest_ok (List.concat (map rc_enc cs) ++ rest)).
+    { destruct cs as [| c2 cs2]; [ exact Hr |]. inversion Hcs; subst. cbn [map List.concat]. rewrite <- app_assoc.
+      left. apply rc_enc_hd. assumption. }
+    replace (List.length cs + S k)%nat with (S (List.length cs + k)) by lia.
+    fold (NS p o lv fnm).
+    erewrite bind_R; [| apply (unq_rcomp c _ p o lv fnm (List.concat (map rc_enc cs) ++ rest)); assumption ].
+    replace (S (List.length cs + k)) with (List.length cs + S k)%nat by lia.
+    rewrite (IH k _ _ lv false rest (At_app _ _ _ H) Hcs Hr).
+    cbn [rcs_out]. rewrite app_length.
+    replace (p + Z.of_nat (List.length (rc_enc c)) + Z.of_nat (List.length (List.concat (map rc_enc cs))))
+      with (p + Z.of_nat (List.length (rc_enc c) + List.length (List.concat (map rc_enc cs)))) by lia.
+    destruct cs; reflexivity.
+Qed.
 End Walk.
 
 (* ================================================================ the formal mangler and the theorem *)
